@@ -62,6 +62,7 @@ type Contract struct {
 	Mode         string               // "" (sequential) | "step" (thread-modular: interference between atomic steps)
 	Atomics      map[int][]*atomicAnn // annotations of the k-th sync/atomic call (source order): ghost updates and asserts
 	Assumes      []*Clause            // "assume[label] E": assumed when the body is verified, NOT checked at call sites (listed in evidence)
+	CallHavoc    []callHavoc          // "call <callee> havoc items": at these call sites the callee is abstracted to a havoc of the items (trusted)
 	AtCall       []atCallGhost        // "at-call <callee-key> lhs := rhs": ghost assignment executed just before matching calls
 	Recv         []*chanClause        // "recv v assume E": every channel receive yields a value v satisfying E
 	Send         []*chanClause        // "send v assert E": every channel send of value v must satisfy E (obligation)
@@ -74,6 +75,12 @@ type Contract struct {
 	NoPanic      bool
 	Notes        []string
 	Asserts      map[string][]*Clause // "call:<callee>#k" -> assumptions at call sites (assume-contract)
+}
+
+type callHavoc struct {
+	Callee string
+	Items  []*Expr
+	All    bool
 }
 
 type atomicAnn struct {
@@ -154,7 +161,7 @@ func NewContractDB() *ContractDB {
 }
 
 var clauseKeywords = map[string]bool{"func": true, "props": true, "trusted": true, "inline": true, "noinline": true, "pure-call": true,
-	"requires": true, "ensures": true, "modifies": true, "assume": true, "mode": true, "atomic": true, "shared": true, "inv": true, "rely": true, "lock": true, "use!": true, "at-call": true, "recv": true, "send": true, "loop": true, "ghost-exit": true, "ghost-pre": true, "use": true, "ghost": true,
+	"requires": true, "ensures": true, "modifies": true, "assume": true, "call": true, "mode": true, "atomic": true, "shared": true, "inv": true, "rely": true, "lock": true, "use!": true, "at-call": true, "recv": true, "send": true, "loop": true, "ghost-exit": true, "ghost-pre": true, "use": true, "ghost": true,
 	"pure": true, "ufun": true, "axiom": true, "lemma": true, "callback-field": true, "callback-type": true,
 	"bounded": true, "nopanic": true, "note": true, "end": true, "params": true, "results": true}
 
@@ -646,6 +653,28 @@ func (db *ContractDB) LoadFile(path string, raw bool) error {
 				if c := mkClause(l); c != nil {
 					cur.Assumes = append(cur.Assumes, c)
 				}
+			case "call":
+				f := strings.SplitN(l.rest, " ", 3)
+				if len(f) < 3 || f[1] != "havoc" {
+					db.errf(l, "expected: call <callee> havoc items|*|none")
+					continue
+				}
+				ch := callHavoc{Callee: f[0]}
+				switch strings.TrimSpace(f[2]) {
+				case "*":
+					ch.All = true
+				case "none":
+				default:
+					for _, item := range splitTop(f[2]) {
+						e, err := ParseSpec(item)
+						if err != nil {
+							db.errf(l, "%v", err)
+							continue
+						}
+						ch.Items = append(ch.Items, e)
+					}
+				}
+				cur.CallHavoc = append(cur.CallHavoc, ch)
 			case "mode":
 				cur.Mode = strings.TrimSpace(l.rest)
 			case "atomic":
